@@ -168,32 +168,47 @@ def run(F, R):
                 "whether a file part is kept depends on the map / operations parts already received (guards at %s): a body that sends a file part before its map "
                 "entry loses that file (MissingFiles) although the same parts in another order bind" % ", ".join(bad))
 
-    R.rule("R24.5", "each limit is installed independently: the per-file limit (SizeLimit::per_field from max_file_size) is applied whenever max_file_size is set — "
-                    "no branch that guards it reads max_num_files (with an else-if chain a configuration that sets both options would lose the per-file limit)")
+    R.rule("R24.5", "each limit is installed independently (finite domain, K4): with both max_file_size and max_num_files set (and with max_file_size alone) the "
+                    "per-file limit SizeLimit::per_field is still reached — decided by walking the option tests with both Options assumed Some")
+    from common import decided_reachable
+
+    def opt_field_of(x, place):
+        """which MultipartOptions field an Option-typed place holds (directly, or as the n-th component of a tuple built from the fields)"""
+        if any(isinstance(f, str) and f in (".max_file_size", ".max_num_files") for f in place):
+            return [f for f in place if isinstance(f, str) and f in (".max_file_size", ".max_num_files")][0][1:]
+        root = place[0]
+        idx = [f for f in place[1:] if isinstance(f, str) and re.fullmatch(r"\.\d+", f)]
+        for _bb, st in x.defs_of_local(root):
+            r_ = st[1]
+            if r_[0] == "agg" and r_[1] == "tuple" and idx:
+                n = int(idx[0][1:])
+                if n < len(r_[5]) and r_[5][n][0] in ("c", "m"):
+                    return opt_field_of(x, r_[5][n][1])
+            if r_[0] == "use" and r_[1][0] in ("c", "m"):
+                return opt_field_of(x, r_[1][1])
+        return None
+
     for c in pf:
         x = c.body
-        bad = []
-        for sbb, t in x.switches():
-            if not x.dominates(sbb, c.bb) or t[1][0] not in ("c", "m"):
-                continue
-            succs = [s_ for s_ in x.succ(sbb) if not x.is_unreachable_block(s_)]
-            if all(c.bb in x.reachable(s_, avoid=[sbb]) or s_ == c.bb for s_ in succs):
-                continue
-            # the guard must let the call be reached whatever max_num_files is: flag guards that depend on it
-            if mentions(x, t[1], "max_num_files"):
-                # ...unless the edge that excludes the call is the one where max_file_size is None as well (a tuple match on both)
-                bad.append(sbb)
-        # path view: assuming the switch on max_num_files goes either way, per_field must stay reachable on both
-        reach_all = True
-        for sbb in bad:
-            for s_ in x.succ(sbb):
-                if x.is_unreachable_block(s_):
-                    continue
-                if c.bb not in x.reachable(s_, avoid=[sbb]) and s_ != c.bb:
-                    reach_all = False
-        R.check(not bad or reach_all, "R24.5", "per_field-limit-independent-of-max_num_files", c.where(), "per_field reachable whatever max_num_files is",
-                "whether SizeLimit::per_field is installed depends on max_num_files: with both options set the per-file limit is skipped and a single file larger than "
-                "max_file_size is accepted as long as the whole body fits max_file_size * max_num_files")
+
+        def sw_dec(bb, d, x=x):
+            place, adt, vmap = d
+            if not adt.endswith("option::Option"):
+                return None
+            fld = opt_field_of(x, place)
+            if fld is None:
+                return None
+            t = x.term(bb)
+            taken = t[3]
+            for v, tgt in t[2]:
+                if vmap.get(v) == "Some":
+                    taken = tgt
+            return taken
+
+        hit = decided_reachable(x, [c.bb], lambda call: None, sw_dec)
+        R.check(bool(hit), "R24.5", "per_field-limit-installed-when-both-limits-set", c.where(), "per_field reachable with both options Some",
+                "with max_file_size and max_num_files both set SizeLimit::per_field is not reached (an else-if chain): a single file larger than max_file_size is accepted "
+                "as long as the whole body fits max_file_size * max_num_files")
     R.floor("R24.5", "per_field sites", len(pf), 1)
 
     R.rule("R24.6", "a resolvable map path always binds: in Request::set_upload, once the variable path resolved (Some arm), the upload is pushed and the marker "
